@@ -2481,9 +2481,14 @@ class Interp:
                 sub = DynFrame(Frame(callee.fn, callee.recv), depth=fr.depth + 1,
                                ptypes=ptypes, want_truth=True)
                 self.stats['functions'].add(callee.key())
+                written, unknown_effects = self.mod_of(callee)
                 for out, s2 in self.exec_block(callee.fn.node.body, s, sub):
+                    # the caller's facts survive unless the callee may have written what
+                    # they speak about
                     s2.facts = {k: v for k, v in saved.items()
-                                if not _fact_has_attr(k)}
+                                if not _fact_has_attr(k) or (
+                                    not unknown_effects and '(' not in ''.join(k[1:])
+                                    and not (_fact_attr_names(k) & written))}
                     self._emit(s2, 'leave', expr, fr, callee=callee, how='truth',
                                outcome=out[0])
                     call_key = ('truth', _txt(expr))
